@@ -7,6 +7,8 @@ R-C13-2: the second solve's outputs (solution term, iteration count, reduction f
 R-C13-3: setup() re-defines every setup-owned member the solve phase reads (levels_, number_of_levels_,
          threads_per_level_, interpolation_, full_grid_smoothing_), clears levels_ before rebuilding it, and
          solve() leaves setup-owned configuration as it found it or re-derives it on entry.
+R-C13-5: nothing reachable from setup() or solve() writes an option member (a member a public setter assigns): options
+         must survive a setup() unchanged, or a second setup() for another problem size inherits derived values.
 Timings (t_*) accumulate by design until resetTimings() and are excluded.
 """
 import itertools
@@ -142,6 +144,56 @@ def main(tier):
                 ck.violation("R-C13-4", "resetup:%s" % probs[0].split(" ")[0][:40], "src/GMGPolar/setup.cpp", "%s: %s" % (pk, probs[0]))
             else:
                 ck.ok("R-C13-4", pk)
+    # ---- R-C13-5: options belong to the user: nothing reachable from setup() or solve() writes a member that a setter sets
+    ck.rule("R-C13-5", "no function reachable from setup() or solve() writes an option member (a member assigned from the argument of a public one-argument setter): a derived value written back would outlive the problem it was derived for", floor=20)
+    from gmg import structq
+    whole = ir.load()
+    setters = {}
+    for qn, fl in whole.functions.items():
+        if not qn.startswith("GMGPolar::"):
+            continue
+        for f in fl:
+            if len(f["params"]) != 1 or f.get("special"):
+                continue
+            pid_ = f["params"][0]["id"]
+            for n in ir.walk(f["body"]):
+                tgt = rhs = None
+                if n.get("k") == "Assign":
+                    tgt, rhs = n["a"], n["b"]
+                elif n.get("k") == "OpCall" and n.get("op") == "=" and len(n.get("args", [])) == 2:
+                    tgt, rhs = n["args"][0], n["args"][1]
+                if tgt is not None and structq.is_this_field(tgt) and any(x.get("k") == "Ref" and x.get("id") == pid_ for x in ir.walk(rhs)):
+                    setters.setdefault(tgt["field"], set()).add(qn)
+    cg = structq.CallGraph(whole)
+    writes = {}
+    for root in ("GMGPolar::setup", "GMGPolar::solve"):
+        seen, st = set(), [root]
+        while st:
+            q = st.pop()
+            if q in seen:
+                continue
+            seen.add(q)
+            st.extend(c for c in cg.callees.get(q, ()) if c.startswith("GMGPolar::"))
+        for q in seen:
+            for f in whole.fns(q):
+                for n in ir.walk(f["body"]):
+                    tgt = None
+                    if n.get("k") == "Assign":
+                        tgt = n["a"]
+                    elif n.get("k") == "OpCall" and n.get("op") in ("=", "+=", "-=", "*=", "/=") and n.get("args"):
+                        tgt = n["args"][0]
+                    elif n.get("k") == "Un" and n.get("op") in ("++", "--"):
+                        tgt = n["e"]
+                    if tgt is not None and structq.is_this_field(tgt) and tgt["field"] in setters:
+                        writes.setdefault(tgt["field"], []).append((root.split("::")[1], q, ir.locstr(n)))
+    for m_ in sorted(setters):
+        ck.instance("R-C13-5", m_)
+        if m_ in writes:
+            root, q, loc = writes[m_][0]
+            ck.violation("R-C13-5", "option-written:%s" % m_, loc, "%s (reachable from %s()) assigns the option member %s, which the user sets through %s: a later setup() on the same object sees the written-back value instead of the option" % (
+                q, root, m_, ", ".join(sorted(setters[m_]))))
+        else:
+            ck.ok("R-C13-5", m_, sample={"option member": m_, "setters": sorted(setters[m_])} if m_ == "ntheta_exp_" else None)
     ck.extra["modes"] = n_modes
     ck.extra["paths"] = n_paths
     return ck.finish(
